@@ -221,7 +221,7 @@ def run(prop: str, tier: str) -> int:
         # ---- set_qubit_state on a (theta, phi) grid + random, incl. negative angles
         arow = []
         grid = [(t, p) for t in (0.0, math.pi / 2, math.pi, 1.0, 2.5) for p in (0.0, math.pi / 2, -math.pi / 2, 3 * math.pi / 2, math.pi, 0.7)]
-        grid += [(rng.uniform(0, math.pi), rng.uniform(-2 * math.pi, 2 * math.pi)) for _ in range(20 if tier == "quick" else 300)]
+        grid += [(rng.uniform(0, math.pi), rng.uniform(-2 * math.pi, 2 * math.pi)) for _ in range(20 if tier == "quick" else 2000)]
         # polar angles outside the textbook range [0, pi]: the documented state cos(theta/2)|0> + e^{i phi} sin(theta/2)|1> is defined for them too
         grid += [(t, p) for t in (4.0, 3 * math.pi / 2, -0.5, 7.0, 2 * math.pi - 0.3, -math.pi / 2, 2 * math.pi + 1.0) for p in (0.0, 0.7, -math.pi / 2)]
         grid += [(rng.uniform(-2 * math.pi, 4 * math.pi), rng.uniform(-2 * math.pi, 2 * math.pi)) for _ in range(20 if tier == "quick" else 300)]
